@@ -22,6 +22,46 @@ CHECKS = {
              "driver on the implementation's trace.",
         design="§5 C01", technique="Lean 4 proof (induction over histories with a manager invariant) + differential "
                                    "correspondence of the hand-written model with the real managers"),
+    "C02": dict(
+        text="Lean 4 theorems composing what C03/C09/C11/C12/C04/C05/C14/C20 prove. Grid part (a grid-world simulation is a "
+             "history of component calls - moves of the three move actors, attacks of the four attack actors with their "
+             "deaths, resets - after a first full reset): C02_grid_observations - in EVERY reachable world (every history "
+             "of every length, grid size, overlap table, blocking layout, agent mix, range, tape) every built-in observer "
+             "(absolute, centred with observe_self on/off, stacked, position, ammunition) returns, for every agent that "
+             "is active or whose stored position is a grid cell, an observation inside the space its constructor declared "
+             "(Observers.declared); C02_grid_actions - in every reachable world every point of the declared action space of "
+             "each of the three move actors and four attack actors is processed without error and the extended history is "
+             "again a reachable one (so the statement iterates over action sequences of every length); "
+             "C02_null_observations / C02_null_actions / C02_null_actions_processed - the null observation each observer "
+             "declares (-2-filled arrays of the declared shape, [0,0], 0) and the null action each actor declares (zero "
+             "move, no attack in each of the four encodings) lie in the declared spaces and are processed without error. "
+             "Wrapper part over the Space/Pt model of C04/C05, each of the form 'inner observation in inner declared space "
+             "implies wrapped observation in wrapped declared space': C02_ravel_layer, C02_flatten_layer (the flattened "
+             "Box as a Space: toSpace_mem), C02_comm_layer + C02_comm_model (the C20 model commSim), C02_super_layer + "
+             "C02_super_model (the C14 model supObs: Dict of the covered agents' real or declared-null observations plus "
+             "one mask bit per covered agent), C02_stack (any stack of unary layers; instances ravel-then-comm, "
+             "comm-then-flatten). NOT carried by a theorem and covered by the runtime monitor only: gymnasium's / "
+             "abmarl.tools.Box's `contains` itself, the assembly of observer channels into one Dict "
+             "(SmartGridWorldSimulation.get_obs, finalize), the step glue / rewards / hand-written observers of the packaged "
+             "example simulations, the action side of the wrappers, spaces outside WF04/WF05 (K1, K3, K5). Tie (runtime "
+             "monitor, op gmember): real simulations - SmartGridWorldSimulations assembled from the real components over "
+             "random grids (incl. 1x1, 1xN, Nx1), overlap tables, ranges 0/partial/FULL/beyond the grid and agent mixes; a "
+             "stub with arbitrary nested declared spaces; every packaged example simulation built with the configurations "
+             "of examples/*.py - alone and under RavelDiscreteWrapper, FlattenWrapper, SuperAgentWrapper, "
+             "CommunicationHandshakeWrapper and stacks of two and three of them, played like the AllStepManager plays them "
+             "under a scripted oracle tape with every action a reproducible sample (or, in the exhaustive small scopes, "
+             "every point) of the declared action space. Every (declared space, observation / null point / action) pair is "
+             "dumped and judged by Lean's `mem`; the real `point in space` must agree with `mem`, and an action that makes "
+             "sim.step raise fails the specification.",
+        design="§5 C02", technique="Lean 4 proof by composition (reachability induction of C03 + observer/actor theorems of "
+                                   "C09/C11/C12; membership preservation of the four wrapper layers and of stacks from "
+                                   "C04/C05/C14/C20) + runtime monitor of real simulations, wrapper stacks and example "
+                                   "simulations whose every space/point pair is judged by the Lean membership predicate",
+        note=NOTE + " C02 specifically: the theorems are about the component models and the Space/Pt model; that a real "
+             "simulation's step is a history of component calls, gymnasium's `contains`, and the packaged example "
+             "simulations' own glue and observers are monitored at run time, not proved; how a Python value is read as a "
+             "point (harness/c02sims.py dump_point) is harness code; open findings C02-E1, C02-N1, C02-N2 are reported as "
+             "KNOWN-FINDING lines."),
     "C07": dict(
         text="Lean 4 theorems C07_fair_turns_and_progress / C07_every_call_returns / turnSearch_total: for every "
              "simulation, manager and history the model reports exactly the agents the property prescribes "
